@@ -146,6 +146,16 @@ func c17Sub(r *rand.Rand, bin, dir string, id int) c17Case {
 		os.MkdirAll(filepath.Join(cwd, "assets"), 0o755)
 		os.WriteFile(filepath.Join(cwd, "assets", "commands.yml"), data, 0o644)
 	}
+	if len(args) > 0 && args[0] == "history" {
+		// a history to show: the sub-command's own flags (limits of any sign, a pattern that matches) then meet real entries
+		hp := filepath.Join(home, ".config", "wtf", "search_history.json")
+		os.MkdirAll(filepath.Dir(hp), 0o755)
+		os.WriteFile(hp, []byte(`{"entries":[{"query":"list files","timestamp":"2024-01-01T00:00:00Z","results_count":3},{"query":"git status","timestamp":"2024-01-02T00:00:00Z","results_count":1},{"query":"list processes","timestamp":"2024-01-03T00:00:00Z","results_count":2}],"max_size":100}`), 0o644)
+		if r.Intn(2) == 0 {
+			args = []string{"history", []string{"--limit=-1", "--limit=-7", "--limit=0", "--limit=2", "-l=-1"}[r.Intn(5)]}
+			args = append(args, [][]string{{"list"}, {"git"}, {"--top"}, {"--stats"}, {"nomatch"}, {}}[r.Intn(6)]...)
+		}
+	}
 	run := c17Exec(bin, home, cwd, nil, args, "\n\n\nq\n")
 	c.Args = intsList(args)
 	c.Exit, c.Panic = run.exit, run.panic
